@@ -76,7 +76,7 @@ def validate_and_run(name, prop, checks, tier="quick", needs=None, what=None):
     try:
         env = dict(os.environ, PYTHONPATH=wt)
         demo = open(os.path.join(d, "demo.py")).read()
-        demo = re.sub(r"/tmp/wt-C\d+[a-z]?", wt, demo)
+        demo = re.sub(r"/tmp/wt\d*-C\d+[a-z]?", wt, demo)
         open(os.path.join(wt, "demo.py"), "w").write(demo)
         rc0, out0 = sh("/venv/bin/python demo.py", cwd=wt, env=env)
         base = pytest_summary(wt)
